@@ -100,11 +100,48 @@ theorem fsRename_moved (ex : List Bytes) (w0 : World) (lp s : Bytes) (c : Nat) (
     exact hm.trans (hs.2 _ hex)
 
 
-theorem removeLayer_moved (cfg : Config) (d : Defs) (name : Bytes) (l : Layer) (w0 : World)
-    (hl : findLayer d name = some l) (hst : l.state ≠ S_complete) (hp : w0.pretend = false) :
+/-- a pure fact about the reference world: every entry at or below the layer directory (and
+    not at/below an automatic export link) is a directory or one of the layer's own files -/
+def OwnOnly (cfg : Config) (l : Layer) (w0 : World) : Prop :=
+  ∀ p node, (∀ m ∈ exPaths cfg l, Fs.under m p = false) → Fs.under l.layerPath p = true →
+    Fs.get w0.fs p = some node → node = .dir ∨ p ∈ ownFiles cfg l
+
+theorem get_some_mem (fs : Fs.Tree) (p : Bytes) (node : Fs.Node) (h : Fs.get fs p = some node) :
+    (p, node) ∈ fs := by
+  unfold Fs.get at h
+  split at h
+  · rename_i e he
+    have hm := List.mem_of_find?_eq_some he
+    have hp := List.find?_some he
+    simp only [beq_iff_eq] at hp
+    cases h
+    rw [← hp]
+    exact hm
+  · cases h
+
+theorem ownOnly_of_same (cfg : Config) (l : Layer) (w0 w : World)
+    (hs : Same (exPaths cfg l) w0 w) (ho : onlyOwnFiles cfg l w.fs = true) : OwnOnly cfg l w0 := by
+  intro p node hex hu hget
+  rw [← hs.2 p hex] at hget
+  have hm := get_some_mem _ _ _ hget
+  unfold onlyOwnFiles at ho
+  have := (List.all_eq_true.1 ho) _ hm
+  simp only [hu, Bool.not_true, Bool.false_or, Bool.or_eq_true,
+    List.contains_eq_mem, decide_eq_true_eq] at this
+  rcases this with h | h
+  · left; cases node <;> simp_all
+  · right; exact h
+
+/-- `remove` without `-files`, any probed state: after a normal return either the directory
+    was renamed to `<dir>~removed` (everything moved), or it was deleted outright — and then
+    the probed state was "not yet populated" and the directory held directories and the
+    layer's own files only -/
+theorem removeLayer_outcome (cfg : Config) (d : Defs) (name : Bytes) (l : Layer) (w0 : World)
+    (hl : findLayer d name = some l) (hp : w0.pretend = false) :
     HoldsOk (Same (exPaths cfg l) w0)
-      (fun _ w => l.layerPath ≠ [47] ∧ Moved (exPaths cfg l) l.layerPath (l.layerPath ++ removedSuffix) w0 w
+      (fun _ w => (l.layerPath ≠ [47] ∧ Moved (exPaths cfg l) l.layerPath (l.layerPath ++ removedSuffix) w0 w
         ∧ Op.rename l.layerPath (l.layerPath ++ removedSuffix) ∈ w.trace)
+        ∨ (Deleted l.layerPath w ∧ l.state = S_complete ∧ OwnOnly cfg l w0))
       (removeLayer cfg d name false) := by
   have hT := testName_holds (Same (exPaths cfg l) w0) d
   have hE := errorIfError_holds (Same (exPaths cfg l) w0)
@@ -115,22 +152,28 @@ theorem removeLayer_moved (cfg : Config) (d : Defs) (name : Bytes) (l : Layer) (
         ∧ Op.rename l.layerPath (l.layerPath ++ removedSuffix) ∈ w.trace)
       (fsRename l.layerPath (l.layerPath ++ removedSuffix)) :=
     fsRename_moved (exPaths cfg l) w0 l.layerPath b!"removed" 126 (by decide) hp
-  have hO := reorder_holds (fun w => l.layerPath ≠ [47] ∧ Moved (exPaths cfg l) l.layerPath (l.layerPath ++ removedSuffix) w0 w
+  have hD := fsRemove_deleted (exPaths cfg l) w0 l.layerPath hp
+  have hO := reorder_holds (fun w => (l.layerPath ≠ [47] ∧ Moved (exPaths cfg l) l.layerPath (l.layerPath ++ removedSuffix) w0 w
         ∧ Op.rename l.layerPath (l.layerPath ++ removedSuffix) ∈ w.trace)
+        ∨ (Deleted l.layerPath w ∧ l.state = S_complete ∧ OwnOnly cfg l w0))
   have hg : getL d name = pure l := by simp [getL, hl]
   unfold HoldsOk at *
   unfold Holds at *
   unfold removeLayer
   simp only [hg]
-  mvcgen [hT, hE, hB, hX, hR, hO, fail, fExists, getW]
-  · rename_i hc _ _
-    exact absurd (by simpa using hc) hst
-  · intro a b c; exact ⟨a, b, c⟩
+  mvcgen [hT, hE, hB, hX, hR, hD, hO, fail, fExists, getW, holdsOnlyOwnFiles]
+  all_goals first
+    | (intro h; exact h)
+    | (have ho := ‹onlyOwnFiles cfg l _ = true›
+       exact Or.inr ⟨‹Deleted _ _›, by simpa using ‹(l.state == S_complete) = true›,
+         ownOnly_of_same _ _ _ _ (by assumption) ho⟩)
+    | (intro a b c; exact Or.inl ⟨a, b, c⟩)
+    | (exact Or.inl ‹_›)
+    | trace_state
 
-
-theorem removeLayer_deleted (cfg : Config) (d : Defs) (name : Bytes) (rf : Bool) (l : Layer) (w0 : World)
-    (hl : findLayer d name = some l) (hst : rf = true ∨ l.state = S_complete) (hp : w0.pretend = false) :
-    HoldsOk (Same (exPaths cfg l) w0) (fun _ w => Deleted l.layerPath w) (removeLayer cfg d name rf) := by
+theorem removeLayer_deleted (cfg : Config) (d : Defs) (name : Bytes) (l : Layer) (w0 : World)
+    (hl : findLayer d name = some l) (hp : w0.pretend = false) :
+    HoldsOk (Same (exPaths cfg l) w0) (fun _ w => Deleted l.layerPath w) (removeLayer cfg d name true) := by
   have hT := testName_holds (Same (exPaths cfg l) w0) d
   have hE := errorIfError_holds (Same (exPaths cfg l) w0)
   have hB := errorIfBusy_holds (Same (exPaths cfg l) w0)
@@ -143,14 +186,14 @@ theorem removeLayer_deleted (cfg : Config) (d : Defs) (name : Bytes) (rf : Bool)
   unfold removeLayer
   simp only [hg]
   mvcgen [hT, hE, hB, hX, hR, hO, fail, fExists, getW]
-  · intro h; exact h
-  · rename_i hc _ _ _
-    exfalso; apply hc
-    rcases hst with e | e <;> simp [e]
+  all_goals first
+    | (intro h; exact h)
+    | (rename_i hc _ _ _; exact absurd rfl hc)
+    | trace_state
 
 /-- the run fails, and the world differs from the start only below the export paths -/
 theorem removeLayer_blocked (cfg : Config) (d : Defs) (name : Bytes) (l : Layer) (w0 : World)
-    (hl : findLayer d name = some l) (hst : l.state ≠ S_complete)
+    (hl : findLayer d name = some l) (hst : l.state = S_complete → ¬ OwnOnly cfg l w0)
     (hre : Fs.lexists w0.fs (l.layerPath ++ removedSuffix) = true)
     (hexp : ∀ m ∈ exPaths cfg l, Fs.under m (l.layerPath ++ removedSuffix) = false) :
     ⦃fun w => ⌜Same (exPaths cfg l) w0 w⌝⦄ removeLayer cfg d name false
@@ -163,14 +206,54 @@ theorem removeLayer_blocked (cfg : Config) (d : Defs) (name : Bytes) (l : Layer)
   unfold Holds at *
   unfold removeLayer
   simp only [hg]
-  mvcgen [hT, hE, hB, hX, fail, fExists, getW]
-  · rename_i hc _ _
-    exact absurd (by simpa using hc) hst
-  · rename_i hs hc
-    exfalso; apply hc
-    have := hs.2 _ hexp
-    unfold Fs.lexists at hre ⊢
-    rw [this]; exact hre
+  mvcgen [hT, hE, hB, hX, fail, fExists, getW, holdsOnlyOwnFiles]
+  all_goals first
+    | (have ho := ‹onlyOwnFiles cfg l _ = true›
+       exact absurd (ownOnly_of_same _ _ _ _ (by assumption) ho)
+         (hst (by simpa using ‹(l.state == S_complete) = true›)))
+    | (rename_i s hs _ hc
+       exfalso; apply hc
+       have := hs.2 _ hexp
+       unfold Fs.lexists at hre ⊢
+       rw [this]; exact hre)
+
+theorem same_mono (ex ex' : List Bytes) (w0 w : World) (hsub : ∀ m ∈ ex, m ∈ ex')
+    (h : Same ex w0 w) : Same ex' w0 w :=
+  ⟨h.1, fun p hp => h.2 p (fun m hm => hp m (hsub m hm))⟩
+
+/-- `remove` without `-files` when `<dir>~removed` exists, any probed state, any exit: the
+    world differs from the start only at/below the layer directory itself and the export
+    paths — in particular not at/below `<dir>~removed` -/
+theorem removeLayer_rm_kept (cfg : Config) (d : Defs) (name : Bytes) (l : Layer) (w0 : World)
+    (hl : findLayer d name = some l)
+    (hre : Fs.lexists w0.fs (l.layerPath ++ removedSuffix) = true)
+    (hexp : ∀ m ∈ exPaths cfg l, Fs.under m (l.layerPath ++ removedSuffix) = false) :
+    ⦃fun w => ⌜Same (exPaths cfg l) w0 w⌝⦄ removeLayer cfg d name false
+    ⦃post⟨fun _ w => ⌜Same (l.layerPath :: exPaths cfg l) w0 w⌝,
+          fun _ w => ⌜Same (l.layerPath :: exPaths cfg l) w0 w⌝⟩⦄ := by
+  have hT := testName_holds (Same (exPaths cfg l) w0) d
+  have hE := errorIfError_holds (Same (exPaths cfg l) w0)
+  have hB := errorIfBusy_holds (Same (exPaths cfg l) w0)
+  have hX := removeLayerExportLinks_same w0 cfg l
+  have hD := fsRemove_same (l.layerPath :: exPaths cfg l) w0 l.layerPath (by simp)
+  have hO := reorder_holds (Same (l.layerPath :: exPaths cfg l) w0)
+  have hg : getL d name = pure l := by simp [getL, hl]
+  have hmono : ∀ w, Same (exPaths cfg l) w0 w → Same (l.layerPath :: exPaths cfg l) w0 w :=
+    fun w h => same_mono _ _ _ _ (fun m hm => by simp [hm]) h
+  unfold Holds at *
+  unfold removeLayer
+  simp only [hg]
+  mvcgen [hT, hE, hB, hX, hD, hO, fail, fExists, getW, holdsOnlyOwnFiles]
+  all_goals first
+    | (apply hmono; assumption)
+    | (intro h; exact h)
+    | (intro h; exact hmono _ h)
+    | (rename_i s hs _ hc
+       exfalso; apply hc
+       have := hs.2 _ hexp
+       unfold Fs.lexists at hre ⊢
+       rw [this]; exact hre)
+    | trace_state
 
 /-- from a triple with arbitrary normal / exceptional postconditions to the run function -/
 theorem extractPost {α} (P : World → Prop) (Q : α → World → Prop) (E : Fault → World → Prop)
